@@ -155,6 +155,17 @@ fn addon_parts(scn: &Scn) -> (String, String, Vec<(String, Vec<String>)>) {
         expect.push(("ET:".to_string(), vec!["ET:[];".to_string()]));
         expect.push(("EG:".to_string(), vec!["EG:[];".to_string()]));
     }
+    if scn.addons & 32 != 0 {
+        // "values set by <var> inside an element's content are discarded when that element
+        // closes": also when the element is not a <g>
+        let outer = v & 1 != 0;
+        if outer {
+            body.push_str("  <var vc=\"top\"/>\n");
+        }
+        body.push_str("  <defs><var vc=\"indefs\"/></defs>\n  <a href=\"#\"><var vc=\"ina\"/><text xy=\"0 88\" text=\"CI:${vc};\"/></a>\n  <switch><var vc=\"insw\"/><rect xy=\"0 87\" wh=\"1\"/></switch>\n  <text xy=\"0 89\" text=\"CO:${vc};\"/>\n");
+        expect.push(("CI:".to_string(), vec!["CI:ina;".to_string()]));
+        expect.push(("CO:".to_string(), vec![if outer { "CO:top;".to_string() } else { "CO:${vc};".to_string() }]));
+    }
     (specs, body, expect)
 }
 
@@ -799,8 +810,8 @@ impl Engine for C15 {
             var_limit,
             phantom: index % 12 == 7,
             server_pass: index % 16 == 11 && var_limit.is_none(),
-            addons: if index % 3 == 1 && var_limit.is_none() { 1 << (index / 3 % 5) } else { 0 },
-            addon_variant: (index / 15 % 32) as u8,
+            addons: if index % 3 == 1 && var_limit.is_none() { 1 << (index / 3 % 6) } else { 0 },
+            addon_variant: (index / 18 % 32) as u8,
         })
         .unwrap()
     }
